@@ -387,10 +387,13 @@ theorem set_nexthop_refuses_unimplemented (b : B N) :
     setMpNexthop b .unimplemented = none ∧ ∀ nh, (setMpNexthop b (.known nh)).isSome = true :=
   ⟨rfl, fun _ => rfl⟩
 
-/-- A link-local address is accepted exactly next to an IPv6 next hop (or none
-yet); the builder then holds the 32-octet form. Next to any other next hop it
-is an error (`IllegalCombination`), not a panic – so `set_nexthop_ll_addr`
-cannot take a builder outside the states the theorems above range over. -/
+/-- A link-local address is accepted exactly next to an IPv6 *unicast* next hop
+(`Unicast(V6)`, or `Ipv6LL` already) or none yet; the builder then holds the
+32-octet form. Next to any other next hop - an IPv6 *multicast* one included
+(`set_nexthop_ll_multicast`), which has no form with a link-local address in
+routecore's `NextHop` - it is an error (`IllegalCombination`), not a panic – so
+`set_nexthop_ll_addr` cannot take a builder outside the states the theorems
+above range over. -/
 theorem set_nexthop_ll_spec (b : B N) :
     (match setNexthopLl b with
      | some b' => (∃ l, b'.ann = some (l, .ll)) ∧ b'.wd = b.wd ∧ b'.attrs = b.attrs ∧ b'.annList = b.annList
@@ -403,6 +406,12 @@ theorem set_nexthop_ll_spec (b : B N) :
     cases nh <;> first
       | (simp [B.annList, h]; done)
       | exact ⟨l, _, rfl, by decide, by decide⟩
+
+/-- audit C06-3a: next to `Multicast(V6)` - the default next hop of the IPv6
+multicast NLRI types - the link-local address is refused (update_builder.rs:185-188). -/
+theorem set_nexthop_ll_multicast (b : B N) (l : List N) (h : b.ann = some (l, .m6)) :
+    setNexthopLl b = none := by
+  unfold setNexthopLl; rw [h]
 
 /-- The iterator and `into_messages` are the same loop: when `into_messages`
 succeeds, `PduIterator` yields exactly those messages (all `Ok`) and then ends –
